@@ -90,16 +90,23 @@ def _check(args):
     if shuffle_factors:
         terms = [rng.sample(t, len(t)) for t in terms]
     factors = sorted({f for t in terms for f in t})
+    # a variant name ending in 'q' is the same spelling on quarter-valued numeric data (x / 4: exact in binary,
+    # but a product computed in an integer type would be truncated)
+    quarters = variant.endswith("q")
+    variant = variant[:-1] if quarters else variant
     wr = VARIANTS[variant]
     width = {v: NUM_WIDTH[wr.get(v, v)] for v in ("x", "z")}
     numeric_parts = {tuple(sorted(f for f in t if f not in CAT)) for t in terms}
     total_w = sum(int(np.prod([width[v] for v in part])) for part in numeric_parts if part)
     df, nlev = make_data(rng, factors, total_w)
+    if quarters:
+        df["x"] = df["x"] / 4.0
+        df["z"] = df["z"] / 4.0
     text = "y ~ " + ("" if case["icpt"] else "0 + ") + " + ".join(":".join(wr.get(f, f) for f in t) for t in terms)
     if case.get("text"):
         text = case["text"]  # the same family spelled with operators (/, *, : over sums): terms share components
     st, dm = design.build(text, df)
-    base = {"formula": text, "levels": nlev, "n": len(df), "variant": variant}
+    base = {"formula": text, "levels": nlev, "n": len(df), "variant": variant + ("q" if quarters else "")}
     sig_extra = {"impl_status": case["impl_status"], "impl_exact": case["impl_exact"], "order_mismatch": bool(case.get("order_mismatch"))}
     if st != "ok":
         return ({"clause": "exception_on_buildable_family", "exc": type(dm).__name__, "site": "Model.eval", **sig_extra}, dict(base, error=str(dm)[:160])), ("exc", type(dm).__name__)
@@ -326,6 +333,7 @@ def main(tier, seed):
     if tier == "quick":
         replay(rep, cases, seed, ["plain"], sample=2500)
         replay(rep, cases, seed + 1, ["C", "TS", "num", "spline"], shuffle=True, sample=250)
+        replay(rep, [c for c in cases if any("x" in t for t in c["terms"])], seed + 5, ["plainq", "TSq"], shuffle=True, sample=300)
         sw = export_families(rep, "FactorsDef5", 3, 2, extra="SwapExtra")
         sw3 = [c for c in sw if any(len(t) == 3 for t in c["terms"])]
         sw = sw3 + [c for c in sw if c not in sw3][: max(0, 1500 - len(sw3))] if len(sw3) < 1500 else sw
@@ -339,6 +347,7 @@ def main(tier, seed):
     else:
         replay(rep, cases, seed, ["plain"])
         replay(rep, cases, seed + 1, ["C", "TS", "num", "spline"], shuffle=True, sample=4000)
+        replay(rep, [c for c in cases if any("x" in t for t in c["terms"])], seed + 5, ["plainq", "TSq", "Cq"], shuffle=True, sample=6000)
         sw = export_families(rep, "FactorsDef5", 3, 3, extra="SwapExtra", timeout=6000)
         replay(rep, sw, seed + 2, ["plain"], sample=20000)
         replay(rep, sw, seed + 4, ["plain"], shuffle=True, sample=20000)
